@@ -18,9 +18,16 @@ THE FULL STATEMENT IS FALSE OF THE CURRENT CODE for exactly one pair: a Projecti
 movable upstream of a Deduplication (known finding F04; `commute_proj_dedup_unsound` is the
 machine-checked witness, replayed against the implementation by the check).  The theorem proved
 is therefore `commute_sound_partial`, which excludes that pair and nothing else.
-`PartialJoin.commute` is not covered by the theorem (validated by correspondence + oracle).
+`PartialJoin.commute` (a join with one operand held fixed, moved upstream of an existing unary operation) is
+covered by `partial_join_commute_sound`: for every existing operation, every fixed relation and every target,
+a reported move is complete, both operations are well-formed where they land, and the rows are those of
+joining at the root - as a multiset always, and as a list (order included) unless the existing operation is
+a Sort.  A join defines no row order; `partial_join_past_sort_is_not_order_exact` shows that in the nested-loop
+reading of the reference semantics list equality really fails for a Sort with the fixed relation on the left,
+so the multiset statement is the strongest true one there.
 -/
 import DafRel.Lemmas.Commute
+import DafRel.Lemmas.JoinCommute
 import DafRel.Bridge.Tables
 import DafRel.Bridge.Ops
 import DafRel.Bridge.RelOps
@@ -76,6 +83,63 @@ theorem commute_proj_dedup_unsound :
     revert this
     decide
 
+/-- **C04 for joins.**  `PartialJoin.commute`, for every existing operation `cur` (well-formed on the target),
+every partial join that is well-formed at the root (`columns_required` within the columns of `cur`'s
+result), every fixed relation (rows `F` with exactly its columns) and every target (rows `l`). -/
+theorem partial_join_commute_sound (p : PJoin) (cur : UOp) (tcols : Cols) (F l : List Row)
+    (hl : RowsHaveCols l tcols) (hF : RowsHaveCols F p.fixed.columns)
+    (hcur : cur.wfOn tcols = true)
+    (hp : p.columnsRequired.subset (cur.appliedColumns tcols) = true) :
+    pjoinCommuteSoundAt p cur tcols F l :=
+  pjoin_commute_sound p cur tcols F l hl hF hcur hp
+
+private def tf : Tag := ⟨"f", true⟩
+private def tA : Tag := ⟨"a", true⟩
+private def fixedLeaf : Rel := .leaf 1 ⟨0, .sql⟩ [tf] "F" 0 none true 0
+private def pjF : PJoin := ⟨⟨.lit true, [], some []⟩, fixedLeaf, true⟩
+private def rowF (v : Int) : Row := fun t => if t = tf then some v else none
+private def rowA (v : Int) : Row := fun t => if t = tA then some v else none
+
+private theorem rowF_cols (v : Int) : RowHasCols (rowF v) [tf] := by
+  intro t
+  by_cases h : t = tf
+  · subst h; simp [rowF]
+  · simp [rowF, h]
+
+private theorem rowA_cols (v : Int) : RowHasCols (rowA v) [tA] := by
+  intro t
+  by_cases h : t = tA
+  · subst h; simp [rowA]
+  · simp [rowA, h]
+
+/-- **Why the join statement is a multiset statement for a Sort.**  With the fixed relation on the left the
+nested-loop join of the reference semantics groups its result by the fixed row: joining the sorted target is
+not the sorted join, although `PartialJoin.commute` (rightly - a join promises no order) reports the move. -/
+theorem partial_join_past_sort_is_not_order_exact :
+    ∃ (p : PJoin) (ts : List SortTerm) (tcols : Cols) (F l : List Row),
+      RowsHaveCols l tcols ∧ RowsHaveCols F p.fixed.columns ∧ (UOp.sort ts).wfOn tcols = true ∧
+      p.columnsRequired.subset tcols = true ∧
+      (p.commute (.sort ts) tcols tcols).1.isSome = true ∧
+      (UOp.sort ts).sem (p.appliedColumns tcols) (p.semRows F l) ≠ p.semRows F ((UOp.sort ts).sem tcols l) := by
+  refine ⟨pjF, [⟨.ref tA, true⟩], [tA], [rowF 1, rowF 2], [rowA 2, rowA 1], ?_, ?_, by decide, by decide, by decide, ?_⟩
+  · intro r hr
+    simp only [List.mem_cons, List.not_mem_nil, or_false] at hr
+    rcases hr with rfl | rfl <;> exact rowA_cols _
+  · intro r hr
+    simp only [List.mem_cons, List.not_mem_nil, or_false] at hr
+    rcases hr with rfl | rfl <;> exact rowF_cols _
+  · intro h
+    have := congrArg (fun rows => rows.map (fun r : Row => r.proj [tf, tA])) h
+    revert this
+    decide
+
+/-- non-vacuity of `partial_join_commute_sound`: a join on a common column `a` with a fixed relation `{a, f}`
+moves upstream of a Selection on `a`, and the hypotheses hold -/
+example :
+    let p : PJoin := ⟨⟨.lit true, [tA], some [tA]⟩, .leaf 1 ⟨0, .sql⟩ [tA, tf] "F" 0 none true 0, false⟩
+    (p.commute (.sel (.ref tA)) [tA] [tA]).1.isSome = true ∧ (UOp.sel (.ref tA)).wfOn [tA] = true ∧
+      p.columnsRequired.subset [tA] = true := by decide
+
 /-! ### Tie to the source: the flags consulted by `commute` are the regenerated ones -/
 
 /-- `is_count_dependent` / `is_order_dependent` of every operation class, as re-read from the
@@ -99,8 +163,8 @@ theorem bridge_commute_methods (cur : UOp) (tcols ccols : Cols) :
    fun s e => Bridge.Slice_commute_eq s e cur tcols ccols,
    fun ts => Bridge.Sort_commute_eq ts cur tcols ccols⟩
 
-/-- `PartialJoin.commute` and `PartialJoin.columns_required` are not covered by the soundness theorem,
-but the model of them that the correspondence check and C03 rely on is the current source's. -/
+/-- `PartialJoin.commute` and `PartialJoin.columns_required`, as translated from the current Python source on this
+run, are the model functions `partial_join_commute_sound` is about. -/
 theorem bridge_partial_join (p : PJoin) (cur : UOp) (tcols ccols : Cols) :
     Gen.PartialJoin_commute p cur tcols ccols = p.commute cur tcols ccols ∧
       Gen.PartialJoin_columns_required p = p.columnsRequired :=
